@@ -29,6 +29,7 @@ func TermExpr(t, x string) string {
 }
 
 func (d *Decl) ctor(t, term string) string {
+	t = Canon(t)
 	if t == "ctx" {
 		return "rt.Ctx(" + term + ")"
 	}
@@ -63,6 +64,7 @@ func (d *Decl) allTypes() []string {
 	seen := map[string]bool{}
 	var add func(t string)
 	add = func(t string) {
+		t = Canon(t)
 		if t == "" || t == "ctx" {
 			return
 		}
@@ -161,6 +163,22 @@ func (d *Decl) EmitBody(withTypes bool) string {
 				sb.WriteString("// Failure is just another spelling of error.\ntype Failure = error\n\n")
 				break
 			}
+		}
+		aliases := map[string]bool{}
+		for _, fs := range d.Structs {
+			for _, f := range fs {
+				if strings.HasPrefix(f.Type, "AT") && !aliases[f.Type] {
+					aliases[f.Type] = true
+				}
+			}
+		}
+		var as []string
+		for a := range aliases {
+			as = append(as, a)
+		}
+		sort.Strings(as)
+		for _, a := range as {
+			fmt.Fprintf(&sb, "// %s is another name for %s.\ntype %s = %s\n\n", a, Canon(a), a, Canon(a))
 		}
 		for _, b := range d.allTypes() {
 			switch {
